@@ -37,7 +37,7 @@ fn render_md(d: &Doc, di: usize, marks: &Path) -> String {
         if let Some(k) = t.inline_skip { cfg.push(format!("skip_document_code: {}", k)); }
         if t.kind == 'T' { cfg.push("timeout: 400ms".to_string()); }
         if t.kind == 'D' { cfg.push("detached: true".to_string()); }
-        if t.kind == 'w' { cfg.push("wait: 1s".to_string()); }   // scrut sleeps one second before it runs this test case
+        if t.kind == 'w' { cfg.push("wait: 2s".to_string()); }   // scrut sleeps two seconds before it runs this test case
         if cfg.is_empty() { s.push_str("```scrut\n"); } else { s.push_str(&format!("```scrut {{{}}}\n", cfg.join(", "))); }
         let mark = format!("echo {} >> {}", id, marks.display());
         match t.kind {
@@ -154,12 +154,12 @@ pub fn gen_run(r: &mut Rng) -> (Vec<Doc>, Option<u64>, bool) {
         for _ in 0..r.range(0, 2) { tests.push(T { kind: *r.pick(&['P', 'O', 'D']), code: 0, inline_skip: None }); }
         docs.push(Doc { cram: false, role: 'm', docskip: None, total_ms: None, tests, fileno: 0 });
     }
-    // the document limit runs out BETWEEN two test cases (scrut waits one second before the second one): the third starts with no
+    // the document limit (1.5 s) runs out BETWEEN two test cases (scrut waits two seconds before the second one): the third starts with no
     // time left and must be reported as timed out at once, the rest skipped
     if r.chance(1, 14) && !slow_used {
         let mut tests = vec![T { kind: *r.pick(&['P', 'O']), code: 0, inline_skip: None }, T { kind: 'w', code: 0, inline_skip: None }];
         for _ in 0..r.range(1, 3) { tests.push(T { kind: *r.pick(&['P', 'O', 'E']), code: 2, inline_skip: None }); }
-        docs.push(Doc { cram: false, role: 'm', docskip: None, total_ms: Some(700), tests, fileno: 0 });
+        docs.push(Doc { cram: false, role: 'm', docskip: None, total_ms: Some(1500), tests, fileno: 0 });
     }
     // Cram: a test that ends in the skip code without leaving the script, and a later one that leaves it early
     if r.chance(1, 12) {
